@@ -110,7 +110,14 @@ struct {
  * @returns The result of this coin selection algorithm, or std::nullopt
  */
 
+#ifdef BITCOIN_VERIF
+// Verification hook (off unless built with -DBITCOIN_VERIF): the bound on search attempts of BnB and CoinGrinder becomes a variable
+// so that a conformance harness can lower it and explore what happens when the bound is hit at every position of the search.
+size_t g_verif_total_tries{100000};
+#define TOTAL_TRIES g_verif_total_tries
+#else
 static const size_t TOTAL_TRIES = 100000;
+#endif
 
 util::Result<SelectionResult> SelectCoinsBnB(std::vector<OutputGroup>& utxo_pool, const CAmount& selection_target, const CAmount& cost_of_change,
                                              int max_selection_weight)
